@@ -4,11 +4,12 @@ import json, os, subprocess
 vd = os.path.dirname(os.path.abspath(__file__))
 props = [json.loads(l) for l in open(os.path.join(vd, "properties.jsonl")) if l.strip()]
 meta = json.load(open(os.path.join(vd, "manifest_meta.json")))
+import glob
 ids = []
-for l in open(os.path.join(vd, "checks.tsv")):
-    if l.startswith("#") or not l.strip():
-        continue
-    ids.append(l.split()[0])
+for f in sorted(glob.glob(os.path.join(vd, "meta", "C*.json"))):
+    i = os.path.basename(f)[:-5]
+    ids.append(i)
+    meta[i] = json.load(open(f))
 checks, na = [], []
 for p in props:
     i = p["id"]
